@@ -8,7 +8,7 @@
 //! Both reified and non-reified versions are supported.
 
 use crate::constraints::props::{Prune, Propagate};
-use crate::variables::{VarId, Val};
+use crate::variables::{Val, Var, VarId};
 use crate::variables::views::{Context, View};
 
 // ═══════════════════════════════════════════════════════════════════════
@@ -759,6 +759,11 @@ impl FloatLinNe {
 
 impl Prune for FloatLinNe {
     fn prune(&self, ctx: &mut Context) -> Option<()> {
+        if let Some(sum) = assigned_sum_float(&self.coefficients, &self.variables, ctx) {
+            // A leaf of the search: decide the constraint on the values a solution would report
+            return if (sum - self.constant).abs() < 1e-12 { None } else { Some(()) };
+        }
+
         let mut unfixed_idx = None;
         let mut fixed_sum = 0.0;
         
@@ -1206,6 +1211,16 @@ fn prune_int_lin_ne(coefficients: &[i32], variables: &[VarId], constant: i32, ct
 }
 
 /// Exclude a specific value from a variable's domain by adjusting bounds
+/// How far a bound moves to leave a forbidden float value behind: one step of a float variable
+/// (a fixed 1e-4 emptied every float domain narrower than that), 1e-4 for an integer variable
+/// (any positive amount below 1 does: the bound is rounded to the next integer).
+fn exclusion_delta(var_id: VarId, ctx: &Context) -> f64 {
+    match &ctx.vars()[var_id] {
+        Var::VarF(interval) => interval.step,
+        Var::VarI(_) => 1e-4,
+    }
+}
+
 fn exclude_value(var_id: VarId, forbidden_value: Val, ctx: &mut Context) -> Option<()> {
     let current_min = var_id.min(ctx);
     let current_max = var_id.max(ctx);
@@ -1224,7 +1239,7 @@ fn exclude_value(var_id: VarId, forbidden_value: Val, ctx: &mut Context) -> Opti
     if current_min == forbidden_value {
         let new_min = match forbidden_value {
             Val::ValI(i) => Val::ValI(i + 1),
-            Val::ValF(f) => Val::ValF(f + 1e-4),
+            Val::ValF(f) => Val::ValF(f + exclusion_delta(var_id, ctx)),
         };
         var_id.try_set_min(new_min, ctx)?;
         return Some(());
@@ -1234,7 +1249,7 @@ fn exclude_value(var_id: VarId, forbidden_value: Val, ctx: &mut Context) -> Opti
     if current_max == forbidden_value {
         let new_max = match forbidden_value {
             Val::ValI(i) => Val::ValI(i - 1),
-            Val::ValF(f) => Val::ValF(f - 1e-4),
+            Val::ValF(f) => Val::ValF(f - exclusion_delta(var_id, ctx)),
         };
         var_id.try_set_max(new_max, ctx)?;
         return Some(());
@@ -1304,6 +1319,30 @@ fn compute_fixed_sum_float(coefficients: &[f64], variables: &[VarId], ctx: &Cont
         }
     }
     
+    Some(sum)
+}
+
+/// Weighted sum of the values a solution would report, once every variable is assigned in the
+/// search's sense (`Var::is_assigned`: an integer domain is a singleton, a float interval is at
+/// most one step wide and is not split any further; the value reported for it is its minimum).
+/// `None` while some variable is still open.
+///
+/// A float interval that the search has finished with is in general NOT a point, so the test
+/// `|max - min| < 1e-12` of the disequality propagators never recognised it: `x != y` stayed
+/// inert on every solution the search reported.
+fn assigned_sum_float(coefficients: &[f64], variables: &[VarId], ctx: &Context) -> Option<f64> {
+    let mut sum = 0.0;
+
+    for (&coeff, &var) in coefficients.iter().zip(variables.iter()) {
+        if !ctx.vars()[var].is_assigned() {
+            return None;
+        }
+        sum += coeff * match var.min(ctx) {
+            Val::ValF(l) => l,
+            Val::ValI(l) => l as f64,
+        };
+    }
+
     Some(sum)
 }
 
@@ -1489,6 +1528,11 @@ fn prune_float_lin_le(coefficients: &[f64], variables: &[VarId], constant: f64, 
 
 /// Helper to apply float_lin_ne propagation (extracted for reuse)
 fn prune_float_lin_ne(coefficients: &[f64], variables: &[VarId], constant: f64, ctx: &mut Context) -> Option<()> {
+    if let Some(sum) = assigned_sum_float(coefficients, variables, ctx) {
+        // A leaf of the search: decide the constraint on the values a solution would report
+        return if (sum - constant).abs() < 1e-12 { None } else { Some(()) };
+    }
+
     let mut unfixed_idx = None;
     let mut fixed_sum = 0.0;
     
